@@ -99,7 +99,8 @@ def oracle(case, out):
         b = bytes.fromhex(t[1]) if t[1] != "-" else b""
         if " | " not in out:
             return "TXT::try_from(&str) failed on a %d-byte string" % len(b)
-        pieces, back = out.split(" | ")
+        parts = out.split(" | ")
+        pieces, back = parts[0], parts[1]
         ps = pieces.split()
         strs = [bytes.fromhex(x) if x != "-" else b"" for x in ps[1:]]
         if any(len(x) > 255 for x in strs):
